@@ -181,11 +181,36 @@ struct History {
 
    History(Ctx& c, Rng& r) : C(c), rng(r) { }
 
+   // "never alias": a sequence OBJECT (identified by its address) that a node hands out by reference has one content at a time.
+   // When the same object comes back from another node (or another accessor) its content is what it was, give or take members
+   // added at the end since; a node that answers through an object shared with - and re-pointed by - other nodes shows here
+   // because what the object held for the first node is not a prefix of (nor prefixed by) what it holds for the second.
+   struct SeqSeen { const Node* owner; std::uint16_t accessor; std::vector<std::uintptr_t> data; };
+   std::unordered_map<std::uintptr_t, SeqSeen> seq_objects;
+   void note_sequences(const Node& n, const FP& fp)
+   {
+      for (auto& e : fp) {
+         if (e.kind != 2 || e.ref == 0 || e.path != 0 || e.name >= 0xfff0) continue;
+         auto [it, fresh] = seq_objects.try_emplace(e.ref, SeqSeen { &n, e.name, e.data });
+         C.count("sequence_objects_matched_against_their_earlier_content");
+         if (fresh) continue;
+         SeqSeen& was = it->second;
+         const auto& a = was.data; const auto& b = e.data;
+         const std::size_t common = std::min(a.size(), b.size());
+         bool prefix = !a.empty() && !b.empty();
+         for (std::size_t k = 1; k < common && prefix; ++k) if (a[k] != b[k]) prefix = false;
+         if (!prefix && !(a.empty() && b.empty()))
+            C.viol(std::string("aliased-sequence-object:") + accessor_names[e.name], std::string("the sequence object returned by ") + accessor_names[e.name] + "() of a " + demangle(typeid(n).name()) + " is the object that " + accessor_names[was.accessor] + "() of " + (was.owner == &n ? "the same node" : "another node (a " + demangle(typeid(*was.owner).name()) + ")") + " returned earlier, with other elements",
+                   J().n("step", step).str());
+         was.owner = &n; was.accessor = e.name; was.data = e.data;
+      }
+   }
    void reg(const Node& n, const std::string& label, int made_index = -1)
    {
       if (index.count(&n)) return;
       index.emplace(&n, items.size());
       items.push_back(Item { &n, label, fingerprint(n), step, is_container(n), made_index });
+      note_sequences(n, items.back().fp);
       C.count("nodes_registered");
    }
    // register what a step produced: new sweep artifacts, and (bounded) what they hand out
@@ -224,6 +249,7 @@ struct History {
          C.viol("changed-after-later-step:" + cls_name.substr(0, 60) + ":" + d, "a node returned at step " + std::to_string(it.born) + " (" + it.label + ") reports something else through " + d + "() after step " + std::to_string(step),
                 J().n("step", step).n("born", it.born).s("label", it.label).str());
       }
+      note_sequences(*it.n, now);
       it.fp = std::move(now);
       if (it.made_index >= 0) {
          ++shadow_reruns;
@@ -409,7 +435,7 @@ static void body(Ctx& C)
       B->reobserve(true);
       C.count("overlapping_lexicon_pairs"); C.count("reobservations", B->reobservations); C.count("steps", B->step);
    }
-   for (auto k : { "overlapping_lexicon_pairs", "histories", "steps", "reobservations", "shadow_reruns", "generative_results", "nodes_registered", "full_reobservations", "steps:sweep-section", "steps:unified-table-growth", "steps:words", "steps:member-addition", "redeclaration_steps", "reobservations_of_artifacts_that_are_not_nodes" }) C.need(k);
+   for (auto k : { "overlapping_lexicon_pairs", "histories", "steps", "reobservations", "shadow_reruns", "generative_results", "nodes_registered", "full_reobservations", "steps:sweep-section", "steps:unified-table-growth", "steps:words", "steps:member-addition", "redeclaration_steps", "reobservations_of_artifacts_that_are_not_nodes", "sequence_objects_matched_against_their_earlier_content" }) C.need(k);
    C.need("string_pools", 2);
 }
 
